@@ -23,7 +23,8 @@ LEVEL_TEXT = ("The decision function is compared with the library's own version 
               " Also tracked handshakes at versions only the caller offers, batches of 100-1000 members, and two clients alive in one process at different versions."
               ' Also a paused consumer with 0-150 messages ahead of a batch while the version changes (all-or-nothing oracle).'
               ' Also responses that carry a protocolVersion member between negotiation and batch.'
-              " Also strings the library's own format validator accepts although they are not plain ASCII dates (other Unicode digits, trailing line breaks, other dashes): decision and ordering must agree on them.")
+              " Also strings the library's own format validator accepts although they are not plain ASCII dates (other Unicode digits, trailing line breaks, other dashes): decision and ordering must agree on them."
+              ' Also a re-entered client whose second handshake settles on the same version as the first.')
 LEVEL_NOTE = ("Trusted: ScriptedProcess stand-in for anyio.open_process (the OS pipe is covered by C05's real-child tier); "
               "the reference validator in vf/ref.py decides which batch members are valid.")
 RULE = ("A: version strings (year x month x day grid); B: (version schedule, batch members). Non-trivial A: string parses; "
